@@ -243,10 +243,10 @@ int main(int argc, char** argv) {
     D.plugin = r.pick(std::vector<std::string>{"kill_by_memory_size_or_growth", "kill_by_memory_size_or_growth",
         "kill_by_memory_size_or_growth", "kill_by_memory_size_or_growth", "kill_by_swap_usage", "kill_by_pressure",
         "kill_by_io_cost", "kill_by_pg_scan"});
-    if (profile == "mem") D.plugin = "kill_by_memory_size_or_growth";
+    if (profile == "c03" || profile == "c07") D.plugin = "kill_by_memory_size_or_growth";
     bool rate = D.plugin == "kill_by_io_cost" || D.plugin == "kill_by_pg_scan";
-    bool recursive = r.chance(60), dry = r.chance(profile == "dry" ? 60 : 15), always = r.chance(15),
-         kernel = r.chance(15), reap = r.chance(60);
+    bool recursive = r.chance(60), dry = r.chance(profile == "c04" ? 55 : 15), always = r.chance(15),
+         kernel = r.chance(profile == "c01" || profile == "c04" ? 35 : 15), reap = r.chance(60);
     int timeout = r.pick(std::vector<int>{0, 1, 2, 5});
     // ----- world
     int nTop = 1 + r.upto(4);
@@ -278,14 +278,14 @@ int main(int argc, char** argv) {
     struct HookS { std::string id; std::vector<std::string> pats; };
     std::vector<HookS> baseHooks, dropHooks;
     std::vector<std::string> hookPats = {"*", "a", "a/*", "*/x", "b", "ab", "*/*/*", "a*"};
-    int nb = profile == "hook" ? 1 + r.upto(2) : (r.chance(50) ? r.upto(3) : 0);
+    int nb = profile == "c07" ? 1 + r.upto(3) : (r.chance(50) ? r.upto(3) : 0);
     for (int i = 0; i < nb; i++) baseHooks.push_back({"hb" + std::to_string(i), {r.pick(hookPats)}});
     int nd = r.chance(30) ? 1 + r.upto(2) : 0;
     for (int i = 0; i < nd; i++) dropHooks.push_back({"hd" + std::to_string(i), {r.pick(hookPats), r.pick(hookPats)}});
     // pre-existing xattr values
     std::vector<std::string> xj;
     for (auto& [p, n] : D.w.nodes) {
-      if (!r.chance(35)) continue;
+      if (!r.chance(profile == "c17" ? 75 : 35)) continue;
       int ot = r.pick(std::vector<int>{0, 7}), ou = r.pick(std::vector<int>{0, 3}), kt = r.pick(std::vector<int>{0, 5}), ku = r.pick(std::vector<int>{0, 2});
       D.fs.setXattr(p, "trusted.oomd_ooms", std::to_string(ot));
       D.fs.setXattr(p, "user.oomd_ooms", std::to_string(ou));
@@ -426,7 +426,7 @@ int main(int argc, char** argv) {
     int detStopPct = r.pick(std::vector<int>{0, 0, 20});
     setDecider([&](const CallInfo& c) { Decision d; if (!c.isAction && r.chance(detStopPct)) d.ret = 1; return d; });
 
-    int nTicks = 2 + r.upto(6);
+    int nTicks = 2 + r.upto(profile == "c07" ? 9 : 6);
     for (int k = 0; k < nTicks; k++) {
       // ----- environment: edits between ticks
       if (k > 0) {
@@ -478,7 +478,56 @@ int main(int argc, char** argv) {
     I.onOpened = nullptr; I.onKill = nullptr; I.onWrite = nullptr; I.onPidfdOpen = nullptr; I.onMrelease = nullptr;
     evEmit(J().str("e", "KEnd"));
   }
+  // ----- systemd_restart, dry and wet (C04): D-Bus calls observed through interposed sd_bus_*
+  for (int k = 0; k < (profile == "c04" || profile == "mix" ? 4 : 0); k++) {
+    bool dry = k % 2 == 0;
+    std::string svc = k < 2 ? "foo.service" : "a-b@1.service";
+    Oomd::setStat("oomd.restarts", 0);
+    std::unique_ptr<Oomd::Engine::BasePlugin> pl(Oomd::getPluginRegistry().create("systemd_restart"));
+    if (!pl) break;
+    pl->setName("systemd_restart");
+    Oomd::Engine::PluginArgs a{{"service", svc}, {"post_action_delay", "0"}};
+    if (dry) a["dry"] = "true";
+    evEmit(J().str("e", "SReset").boolean("dry", dry).str("service", svc).num("t", vclockNowMs()));
+    I.onWrite = [&](const std::string& path, const std::string& data) {
+      if (path != kmsgPath) return;
+      auto pos = data.find("service=");
+      std::string rest = pos == std::string::npos ? "" : data.substr(pos + 8);
+      bool d = rest.find("(dry)") != std::string::npos;
+      std::string name = rest.substr(0, rest.find_first_of(" \n"));
+      evEmit(J().str("e", "SKmsg").str("service", name).boolean("dry", d).boolean("prefixOk", data.rfind("oomd kill: ", 0) == 0));
+    };
+    int rc = pl->initPlugin(a, Oomd::PluginConstructionContext("/"));
+    Oomd::OomdContext ctx;
+    auto ret = rc == 0 ? pl->run(ctx) : Oomd::Engine::PluginRet::CONTINUE;
+    static const char* names[] = {"CONTINUE", "STOP", "ASYNC"};
+    auto st = Oomd::getStats();
+    evEmit(J().str("e", "SRet").str("ret", names[(int)ret]).num("restarts", st["oomd.restarts"]).num("init", rc));
+    I.onWrite = nullptr;
+  }
   evFlush();
   fflush(stdout);
   _exit(0);
+}
+
+// ---------------------------------------------------------------- sd-bus (libsystemd) stand-ins
+#include <stdarg.h>
+extern "C" {
+struct sd_bus; struct sd_bus_message; struct sd_bus_error { const char* name; const char* message; int need_free; };
+int sd_bus_open_system(sd_bus** b) { *b = (sd_bus*)0x1; return 0; }
+int sd_bus_call_method(sd_bus*, const char*, const char*, const char*, const char* member, sd_bus_error*,
+                       sd_bus_message** reply, const char* types, ...) {
+  va_list ap; va_start(ap, types);
+  const char* unit = types && types[0] == 's' ? va_arg(ap, const char*) : "";
+  const char* mode = types && types[0] == 's' && types[1] == 's' ? va_arg(ap, const char*) : "";
+  va_end(ap);
+  verif::evEmit(verif::J().str("e", "Dbus").str("method", member ? member : "").str("unit", unit ? unit : "").str("mode", mode ? mode : ""));
+  if (reply) *reply = (sd_bus_message*)0x2;
+  return 0;
+}
+int sd_bus_message_read(sd_bus_message*, const char*, ...) { return 1; }
+void sd_bus_error_free(sd_bus_error*) {}
+sd_bus_message* sd_bus_message_unref(sd_bus_message*) { return nullptr; }
+void sd_bus_close(sd_bus*) {}
+sd_bus* sd_bus_unref(sd_bus*) { return nullptr; }
 }
